@@ -113,6 +113,9 @@ Qed.
    reported nothing for `Cow<'a, str>`, so the expansion used an undeclared lifetime. *)
 Theorem used_lifetimes_exact : forall t, wf t -> used_lifetimes (embed t) = lifetimes_of t.
 Proof. exact ParseUsedProof.used_lifetimes_exact. Qed.
+(* likewise the const parameters a field type uses as array lengths (get_array_lens), at any nesting depth *)
+Theorem array_lens_exact : forall t, wf t -> array_lens (embed t) = lens_of t.
+Proof. exact ParseUsedProof.array_lens_exact. Qed.
 (* the finding the proof produced: `&&T` is not consumed as one type (the real parser then panics on the leftover) *)
 Example nested_ref_not_one_type :
   next_type 5 (lex (GRef None (GRef None (GPath "T" nil nil)))) = Ok (Some (Ty CUnNamed None (Some None) None)) (TP PAmp :: TId "T" :: nil).
@@ -125,3 +128,4 @@ Print Assumptions interpretation_stable.
 Print Assumptions attribute_readings.
 Print Assumptions parsed_field_flags.
 Print Assumptions used_lifetimes_exact.
+Print Assumptions array_lens_exact.
